@@ -527,7 +527,7 @@ func sizeClass(n, E int) string {
 
 func gen(rng *h.Rng, tier string, emit func(string)) {
 	st := h.Stats{}
-	nTiny, nFull := 3000, 4
+	nTiny, nFull := 2000, 4
 	if tier == "thorough" {
 		nTiny, nFull = 40000, 60
 	}
